@@ -555,7 +555,8 @@ def _parseShortTextgrid(data: str) -> Dict:
         metaStartI = _fetchRow(tierData, 0)[1]
 
         # Tier meta-information
-        tierName, tierNameEndI = _fetchTextRow(tierData, metaStartI)
+        # A tier's name is kept verbatim (labels are stripped, names are not)
+        tierName, tierNameEndI = _fetchTextRow(tierData, metaStartI, stripText=False)
         tierStartTimeStr, tierStartTimeI = _fetchRow(tierData, tierNameEndI)
         tierEndTimeStr, tierEndTimeI = _fetchRow(tierData, tierStartTimeI)
         startTimeI = _fetchRow(tierData, tierEndTimeI)[1]
@@ -622,7 +623,7 @@ def _fetchRow(
 
 
 def _fetchTextRow(
-    dataStr: str, index: int, searchStr: Optional[str] = None
+    dataStr: str, index: int, searchStr: Optional[str] = None, stripText: bool = True
 ) -> Tuple[str, int]:
     if searchStr is None:
         startIndex = index
@@ -647,7 +648,8 @@ def _fetchTextRow(
 
     word = dataStr[startIndex:endIndex]
     word = word[1:-1]  # Remove the quote marks around the text
-    word = word.strip()
+    if stripText:
+        word = word.strip()
 
     word = word.replace('""', '"')  # Unescape quote marks
 
